@@ -13,7 +13,10 @@ Three kinds of comparison are made on every case:
        high-precision reference, with a tolerance that grows like 1/sin(separation) (the bearing of a
        point 1e-9 deg away is not defined to 1e-9 deg by double inputs);
      * translate: reference distance start -> result is r, reference position angle is theta (mod 360);
-     * scalar and array calls agree element-wise;
+     * scalar and array calls agree element-wise; integer-typed arrays, Python ints, 0-d arrays, numpy scalar types
+       and mixed scalar/array broadcasting give the float64 answer; no argument array is modified;
+     * call HISTORIES: the same ndarray objects re-used across calls with their contents changed in place (each
+       argument in turn) give, at every call, the answer fresh arrays with the same values give;
      * dec2dms / dec2hms: output matches the format, minutes < 60, seconds < 60, hours < 24,
        degrees <= 90 (and 90 only with 00:00.00), 'XX:XX:XX.XX' for non-finite input;
        dec2dec(dec2dms(x)) and ra2dec(dec2hms(x)) (mod 360) are within half a unit of the last printed
@@ -46,7 +49,8 @@ RULE = ("sphere cases are coordinate pairs / triples / (point, r, theta) drawn f
         "triples); a sphere case is non-trivial when its regime is not 'random' or its separation is < 1e-3 or > 179 deg; "
         "sexagesimal cases are angles; non-trivial = within 1e-6 deg of a value where a printed field carries "
         "(seconds/minutes/degrees/hours roll over) or negative/wrapping RA or a non-finite value or a malformed "
-        "string; parser strings are non-trivial when they carry a sign, a zero degrees/hours field or leading white "
+        "string; every call history (same ndarray objects re-used with in-place updates) and every type/broadcast case "
+        "is non-trivial; parser strings are non-trivial when they carry a sign, a zero degrees/hours field or leading white "
         "space; distinct by (function, exact input)")
 ASSUMPTIONS = [
     "IEEE-754 rounding inside numpy's sin/cos/arcsin/arctan2/sqrt is not modelled: theorems are over the reals; the "
@@ -806,6 +810,227 @@ def judge_pinned_model(ctx, xs_dms, xs_hms):
 
 
 # ---------------------------------------------------------------------------------------------
+# call HISTORIES: the answer must depend on the current argument VALUES only
+#
+# The Lean model is a pure function, so "the result is a function of the current argument values; the
+# arguments are not modified" holds for it by construction; no theorem can say that about the Python
+# code, whose module state / caches / argument aliasing live outside the model.  The correspondence is
+# therefore also run as histories: the SAME ndarray objects are passed again and again, their contents
+# changed in place between calls (each argument in turn), nothing else is called in between, and every
+# answer is compared afterwards with the answer for fresh arrays holding the same values.
+# ---------------------------------------------------------------------------------------------
+HIST_FUNCS = {'gcd': ('ra1', 'dec1', 'ra2', 'dec2'), 'bear': ('ra1', 'dec1', 'ra2', 'dec2'),
+              'translate': ('ra', 'dec', 'r', 'theta')}
+
+
+def _hist_value(rng, name, n, integer):
+    if name.startswith('ra') or name == 'theta':
+        v = [rng.uniform(0, 360) for _ in range(n)]
+    elif name.startswith('dec'):
+        v = [rng.uniform(-85, 85) for _ in range(n)]
+    else:
+        v = [rng.uniform(0.5, 170) for _ in range(n)]
+    return [float(int(x)) for x in v] if integer else v
+
+
+def gen_history(rng, func, steps, dtype):
+    """list of states; state = 4 lists of values.  Between consecutive states exactly one argument (each in turn)
+    or occasionally all of them change, by the in-place idioms  a[:] = new,  a += c,  a *= c."""
+    names = HIST_FUNCS[func]
+    n = rng.choice([1, 3, 6])
+    integer = dtype.startswith('int')
+    state = [_hist_value(rng, nm, n, integer) for nm in names]
+    out = [[list(v) for v in state]]
+    order = list(range(4))
+    rng.shuffle(order)
+    for k in range(steps):
+        which = [order[k % 4]] if rng.random() < 0.85 else [0, 1, 2, 3]
+        for i in which:
+            nm = names[i]
+            op = rng.choice(['assign', 'iadd', 'imul'])
+            if op == 'assign':
+                state[i] = _hist_value(rng, nm, n, integer)
+            elif op == 'iadd':
+                c = 3.0
+                state[i] = [x + c for x in state[i]]
+            else:
+                c = 2.0 if integer else 0.5
+                state[i] = [x * c for x in state[i]]
+            if nm.startswith('dec'):
+                state[i] = [max(-89.0, min(89.0, x)) for x in state[i]]
+            if nm == 'r':
+                state[i] = [max(0.5, min(175.0, x)) for x in state[i]]
+        out.append([list(v) for v in state])
+    return out
+
+
+def _as_tuple(res):
+    return tuple(np.array(x, dtype=float, copy=True) for x in (res if isinstance(res, tuple) else (res,)))
+
+
+def _same(a, b):
+    return len(a) == len(b) and all(x.shape == y.shape and np.array_equal(x, y, equal_nan=True) for x, y in zip(a, b))
+
+
+def run_history(func, states, dtype):
+    """returns (results with reused objects, results with fresh arrays, list of (step, argname) whose array was modified
+    by the call)"""
+    at = _at()
+    f = getattr(at, func)
+    names = HIST_FUNCS[func]
+    dt = np.dtype(dtype)
+    objs = [np.array(v, dtype=dt) for v in states[0]]
+    reused, mutated = [], []
+    for k, st in enumerate(states):
+        if k:
+            for i in range(4):
+                if st[i] != states[k - 1][i]:
+                    objs[i][:] = np.array(st[i], dtype=dt)          # in place: the object stays the same
+        before = [o.copy() for o in objs]
+        reused.append(_as_tuple(f(*objs)))
+        for i in range(4):
+            if not np.array_equal(objs[i], before[i], equal_nan=True):
+                mutated.append((k, names[i]))
+                objs[i][:] = before[i]
+    fresh = [_as_tuple(f(*[np.array(v, dtype=dt) for v in st])) for st in states]
+    return reused, fresh, mutated
+
+
+def judge_history(ctx, func, states, dtype, regime='generated'):
+    names = HIST_FUNCS[func]
+    case = dict(kind='history', func=func, dtype=dtype, states=states)
+    try:
+        reused, fresh, mutated = run_history(func, states, dtype)
+    except Exception as e:
+        ctx.fail('spec', case, f"{func} raised {type(e).__name__}: {e} in a call history", dict(site=func, what='raises'))
+        ctx.case(dict(kind='history', func=func, dtype=dtype, steps=len(states)))
+        return
+    for (k, nm) in mutated[:1]:
+        ctx.fail('spec', dict(case, states=states[:k + 1]), f"{func} modified its argument array `{nm}` (call {k} of the history)",
+                 dict(site=func, what='argument-modified', arg=nm))
+    bad = [k for k in range(len(states)) if not _same(reused[k], fresh[k])]
+    if bad:
+        k = bad[0]
+        changed = [names[i] for i in range(4) if k and states[k][i] != states[k - 1][i]]
+        mini = states[:k + 1]
+        if k >= 1:      # shrink: previous call + this call
+            try:
+                r2, f2, _ = run_history(func, states[k - 1:k + 1], dtype)
+                if not _same(r2[1], f2[1]):
+                    mini = states[k - 1:k + 1]
+            except Exception:
+                pass
+        ctx.fail('spec', dict(case, states=mini),
+                 f"{func}: call {k} of a history that re-uses the same ndarray objects (argument(s) {changed} changed in place since "
+                 f"the previous call) returned {[x.tolist() for x in reused[k]]!r}, fresh arrays with the same values give "
+                 f"{[x.tolist() for x in fresh[k]]!r}", dict(site=func, what='history-dependence', args=",".join(changed)))
+    ctx.count(f'history:{func}:{dtype}')
+    ctx.case(dict(kind='history', func=func, dtype=dtype, steps=len(states), n=len(states[0][0])),
+             nontrivial_key=('history', func, dtype, json_key(states)), sample_every=97)
+
+
+def json_key(x):
+    import hashlib
+    import json
+    return hashlib.sha1(json.dumps(x).encode()).hexdigest()[:16]
+
+
+def judge_histories(ctx, n_hist):
+    rng = ctx.rng
+    for func in HIST_FUNCS:
+        for h in range(n_hist):
+            dtype = ['float64', 'float64', 'float64', 'int64', 'float32', 'int32'][h % 6]
+            judge_history(ctx, func, gen_history(rng, func, rng.choice([4, 8, 12]), dtype), dtype)
+
+
+def judge_types(ctx, n):
+    """integer-typed arrays / Python ints, 0-d arrays, numpy scalar types, mixed scalar-array broadcasting: the answer
+    must be the float64 answer for the same values; dec2dms/dec2hms on numpy scalar types"""
+    at = _at()
+    rng = ctx.rng
+    conv = {'int': int, 'np.int64': np.int64, 'np.int32': np.int32, 'np.float64': np.float64, '0-d float64': lambda v: np.array(float(v)),
+            '0-d int64': lambda v: np.array(int(v)), 'np.float32': np.float32, '0-d float32': lambda v: np.array(v, dtype=np.float32)}
+    for func, names in HIST_FUNCS.items():
+        f = getattr(at, func)
+        for _ in range(n):
+            vals = [float(int(_hist_value(rng, nm, 1, True)[0])) for nm in names]      # integers: exact in every type
+            ref = _as_tuple(f(*vals))
+            kinds = [rng.choice(list(conv)) for _ in range(4)]
+            case = dict(kind='types', func=func, values=vals, types=kinds)
+            try:
+                got = _as_tuple(f(*[conv[k](v) for k, v in zip(kinds, vals)]))
+            except Exception as e:
+                ctx.fail('spec', case, f"{func} raised {type(e).__name__}: {e} for argument types {kinds}", dict(site=func, what='types-raise'))
+                ctx.case(case)
+                continue
+            tol = 2e-3 if any('float32' in k for k in kinds) else 1e-10
+            if not all(x.shape == y.shape and np.allclose(x, y, rtol=0, atol=tol) for x, y in zip(got, ref)):
+                ctx.fail('spec', case, f"{func}{tuple(vals)} = {[x.tolist() for x in ref]} with floats but {[x.tolist() for x in got]} with types {kinds}",
+                         dict(site=func, what='types-value'))
+            # mixed scalar-array broadcasting against element-wise scalar calls
+            m = 4
+            cols = [[float(int(_hist_value(rng, nm, 1, True)[0])) for _ in range(m)] for nm in names]
+            isarr = [rng.random() < 0.5 for _ in range(4)]
+            if not any(isarr):
+                isarr[rng.randrange(4)] = True
+            args = [np.array(c) if a else c[0] for c, a in zip(cols, isarr)]
+            owned = [a.copy() if isinstance(a, np.ndarray) else a for a in args]
+            bcase = dict(kind='broadcast', func=func, cols=cols, is_array=isarr)
+            try:
+                res = _as_tuple(f(*args))
+                want = [_as_tuple(f(*[(c[j] if a else c[0]) for c, a in zip(cols, isarr)])) for j in range(m)]
+                # an output that does not depend on any array argument may legitimately stay a scalar: compare broadcast
+                ok = all(res[q].shape in ((m,), ()) and np.allclose(np.broadcast_to(res[q], (m,)), [w[q] for w in want], rtol=0, atol=1e-10)
+                         for q in range(len(res)))
+                if not ok:
+                    ctx.fail('spec', bcase, f"{func} with mixed scalar/array arguments {isarr} differs from element-wise scalar calls",
+                             dict(site=func, what='broadcast'))
+                if any(isinstance(a, np.ndarray) and not np.array_equal(a, o) for a, o in zip(args, owned)):
+                    ctx.fail('spec', bcase, f"{func} modified an argument array", dict(site=func, what='argument-modified'))
+            except Exception as e:
+                ctx.fail('spec', bcase, f"{func} raised {type(e).__name__}: {e} with mixed scalar/array arguments", dict(site=func, what='broadcast'))
+            ctx.count('types:' + func)
+            ctx.case(case, nontrivial_key=('types', func, tuple(vals), tuple(kinds)), sample_every=97)
+    # formatters on numpy scalar types (values exactly representable in every type)
+    for name, f, lo, hi in (('dec2dms', at.dec2dms, -90 * 8, 90 * 8), ('dec2hms', at.dec2hms, -360 * 8, 720 * 8)):
+        for _ in range(n):
+            for kind in ('np.float64', 'np.float32', 'np.int64', 'np.int32', 'int', '0-d float64', '0-d float32'):
+                v = rng.randint(lo, hi) / 8.0
+                if 'int' in kind:
+                    v = float(int(v))
+                case = dict(kind='fmt-type', func=name, x=v, type=kind)
+                want = f(float(v))
+                try:
+                    got = f(conv[kind](v))
+                except Exception as e:
+                    got = f"raised {type(e).__name__}: {e}"
+                if got != want:
+                    ctx.fail('spec', case, f"{name}({kind}({v!r})) = {got!r} but {want!r} for the Python float", dict(site=name, what='types-value', type=kind))
+                ctx.count('fmt-type:' + kind)
+                ctx.case(case, nontrivial_key=('fmt-type', name, v, kind))
+    # narrow numpy types: the string must be the one printed for float(x) (float() is exact for all of them), and
+    # therefore within half a unit of the value passed in -- also for float32 values that are not dyadic-simple
+    for name, f, lo, hi in (('dec2dms', at.dec2dms, -90.0, 90.0), ('dec2hms', at.dec2hms, 0.0, 360.0)):
+        for _ in range(n):
+            for kind, c in (('np.float32', np.float32), ('np.float16', np.float16), ('np.int16', np.int16), ('np.int8', np.int8),
+                            ('np.uint8', np.uint8)):
+                v = rng.uniform(lo, hi)
+                if 'int' in kind:
+                    v = int(v) % 100
+                xv = c(v)
+                case = dict(kind='fmt-type', func=name, x=float(xv), type=kind)
+                want = f(float(xv))
+                try:
+                    got = f(xv)
+                except Exception as e:
+                    got = f"raised {type(e).__name__}: {e}"
+                if got != want:
+                    ctx.fail('spec', case, f"{name}({kind}({float(xv)!r})) = {got!r} but {want!r} for the same value as a Python float",
+                             dict(site=name, what='types-value', type=kind))
+                ctx.count('fmt-type:' + kind)
+                ctx.case(case, nontrivial_key=('fmt-type', name, float(xv), kind))
+
+# ---------------------------------------------------------------------------------------------
 # corpus: minimised past failures, always run first
 # ---------------------------------------------------------------------------------------------
 CORPUS_PAIRS = [
@@ -831,6 +1056,13 @@ CORPUS_STRINGS = [('  -00:07:24.42', Fraction(-12345, 100000) + Fraction(0), dic
                   (' +00:30:00', Fraction(1, 2), dict(sign='+', zero_degrees=True, leading_ws=True, trailing_ws=False, sep="':'", fields=3))]
 
 
+CORPUS_HISTORIES = [('translate', [[[10.0, 20.0], [20.0, -35.0], [5.0, 60.0], [30.0, 200.0]],
+                                    [[10.0, 20.0], [23.0, -32.0], [5.0, 60.0], [30.0, 200.0]]], 'float64'),
+                    ('translate', [[[10.0], [20.0], [5.0], [30.0]], [[10.0], [60.0], [5.0], [30.0]], [[10.0], [60.0], [50.0], [30.0]]], 'int64'),
+                    ('gcd', [[[10.0], [20.0], [50.0], [30.0]], [[10.0], [60.0], [50.0], [30.0]], [[10.0], [60.0], [50.0], [-30.0]]], 'float64'),
+                    ('bear', [[[10.0], [20.0], [50.0], [30.0]], [[40.0], [20.0], [50.0], [30.0]]], 'float64')]
+
+
 def run_corpus(ctx):
     import glob
     import json
@@ -840,6 +1072,8 @@ def run_corpus(ctx):
     judge_sexa(ctx, 'dms', CORPUS_DMS)
     judge_sexa(ctx, 'hms', CORPUS_HMS)
     judge_parse_strings(ctx, CORPUS_STRINGS)
+    for func, states, dtype in CORPUS_HISTORIES:
+        judge_history(ctx, func, states, dtype, regime='corpus')
     for fn in sorted(glob.glob(os.path.join(common.VERIF, 'corpus', 'C17', '*.json'))):
         rec = json.load(open(fn))
         replay(ctx, rec)
@@ -850,8 +1084,8 @@ def run_corpus(ctx):
 # ---------------------------------------------------------------------------------------------
 def sizes(ctx, wide=False):
     if ctx.quick and not wide:
-        return dict(pairs=1500, triples=400, translate=1200, sexa=4000, strings=2500)
-    return dict(pairs=40000, triples=12000, translate=40000, sexa=200000, strings=60000)
+        return dict(pairs=1500, triples=400, translate=1200, sexa=4000, strings=2500, histories=60, types=60)
+    return dict(pairs=40000, triples=12000, translate=40000, sexa=200000, strings=60000, histories=1500, types=1500)
 
 
 def run(ctx):
@@ -867,6 +1101,8 @@ def run(ctx):
     judge_sexa(ctx, 'hms', xs_h)
     judge_parser(ctx, MALFORMED)
     judge_parse_strings(ctx, gen_parse_strings(rng, sz['strings']))
+    judge_histories(ctx, sz['histories'])
+    judge_types(ctx, sz['types'])
     judge_pinned_model(ctx, xs_d[: sz['sexa'] // 2], xs_h[: sz['sexa'] // 2])
 
 
@@ -880,7 +1116,9 @@ def search(ctx):
     ctx.driver_ok = False
     try:
         sz = sizes(ctx, wide=True)
-        for step in (lambda: judge_parse_strings(ctx, gen_parse_strings(rng, sz['strings'])),
+        for step in (lambda: judge_histories(ctx, sz['histories']),
+                     lambda: judge_types(ctx, sz['types']),
+                     lambda: judge_parse_strings(ctx, gen_parse_strings(rng, sz['strings'])),
                      lambda: judge_sexa(ctx, 'dms', gen_dms(rng, sz['sexa']), model=False),
                      lambda: judge_sexa(ctx, 'hms', gen_hms(rng, sz['sexa']), model=False),
                      lambda: judge_pairs(ctx, gen_pairs(rng, sz['pairs']), model=False),
@@ -905,6 +1143,24 @@ def replay(ctx, rec):
         judge_translate(ctx, [(c['ra'], c['dec'], c['r'], c['theta'])])
     elif k in ('dms', 'hms'):
         judge_sexa(ctx, k, [float(c['x'])])
+    elif k == 'history':
+        judge_history(ctx, c['func'], c['states'], c.get('dtype', 'float64'), regime='replay')
+    elif k == 'fmt-type':
+        at = _at()
+        f = getattr(at, c['func'])
+        conv = dict((t, getattr(np, t[3:])) for t in ('np.float64', 'np.float32', 'np.float16', 'np.int64', 'np.int32', 'np.int16', 'np.int8', 'np.uint8'))
+        conv.update({'int': int, '0-d float64': lambda v: np.array(float(v)), '0-d float32': lambda v: np.array(v, dtype=np.float32)})
+        want = f(float(c['x']))
+        try:
+            got = f(conv[c['type']](c['x']))
+        except Exception as e:
+            got = f"raised {type(e).__name__}: {e}"
+        if got != want:
+            ctx.fail('spec', c, f"{c['func']}({c['type']}({c['x']!r})) = {got!r} but {want!r} for the same value as a Python float",
+                     dict(site=c['func'], what='types-value', type=c['type']))
+        ctx.case(c, nontrivial_key=('fmt-type', c['func'], c['x'], c['type']))
+    elif k in ('types', 'broadcast'):
+        judge_types(ctx, 30)
     elif k == 'parse-string':
         judge_parse_strings(ctx, [(c['s'], Fraction(c['exact']) / (15 if c.get('func') == 'ra2dec' else 1), dict(sign='-' if c['s'].strip().startswith('-') else 'none', zero_degrees=False, leading_ws=c['s'][:1].isspace(), trailing_ws=False, sep='', fields=3))])
     elif k == 'parse':
